@@ -99,7 +99,9 @@ def gen_case(g: VGen, opts: dict) -> dict:
     r = g.rng
     g.reset()
     g.user_rate = 0.04
-    g.async_rate = 0.03
+    # one case in eight is drawn with many async predicates: describing a validator that has both kinds of predicate
+    # (usually a TypeError) must leave both of its lists as they were
+    g.async_rate = 0.03 if r.random() < 0.875 else 0.5
     g.special_rate = opts.get("special_rate", 0.06)
     v = g.gen_v(r.choice([0, 0, 1, 1, 2, 3]))
     # `Lazy(thunk, recurrent=False)`: schema generation must not follow the thunk (which may well be recursive)
